@@ -4,7 +4,7 @@
 # usage: tools/seedverify.sh C09 m1      (expects /tmp/wt/C09 worktree and /tmp/wt/C09.out/m1/)
 set -u
 prop=$1; m=$2
-wt=/tmp/wt/$prop; out=/tmp/wt/$prop.out/$m
+sfx=${WT_SUFFIX:-}; wt=/tmp/wt/$prop$sfx; out=/tmp/wt/$prop$sfx.out/$m
 export GOFLAGS=-mod=mod GOPROXY=off GOSUMDB=off GOTOOLCHAIN=local
 cd $wt || exit 2
 git checkout -q -- . && git clean -fdq
